@@ -59,6 +59,7 @@ type AV struct {
 	Tup     []AV
 	Tag     string   // for kExtFn: label
 	Consts  []string // kSlice: the complete, constant contents of a string-kinded list (package-level tables)
+	Len     int      // kSlice: exact length + 1 when known (0: unknown) — seeds "list with one member"
 }
 
 var (
@@ -133,6 +134,9 @@ func (a AV) String() string {
 		if a.T != nil {
 			t = typeName(a.T)
 		}
+		if a.Len > 0 {
+			return fmt.Sprintf("%s(%s){%s}#%d", t, n, e, a.Len-1)
+		}
 		return fmt.Sprintf("%s(%s){%s}", t, n, e)
 	}
 	return "?"
@@ -174,7 +178,7 @@ func avEqual(a, b AV) bool {
 		}
 		return true
 	case kSlice:
-		if len(a.Consts) != len(b.Consts) {
+		if len(a.Consts) != len(b.Consts) || a.Len != b.Len {
 			return false
 		}
 		for i := range a.Consts {
@@ -269,6 +273,9 @@ func avJoin(a, b AV) AV {
 		r := AV{K: kSlice, Nil: joinTri(a.Nil, b.Nil)}
 		if sameType(a.T, b.T) {
 			r.T = a.T
+		}
+		if a.Len == b.Len {
+			r.Len = a.Len
 		}
 		switch {
 		case a.Elem != nil && b.Elem != nil:
@@ -503,6 +510,93 @@ func isFoldContains(fn *ssa.Function) bool {
 		}
 	}
 	return folds == 1
+}
+
+// foldLookup: fn(x) has the shape "range over ONE package-level table, compare x with the element by strings.EqualFold
+// (its only call), return the element on a match, a constant otherwise". Returns the table and the constant.
+func foldLookup(fn *ssa.Function) (*ssa.Global, constant.Value, bool) {
+	if fn == nil || fn.Blocks == nil || fn.Signature.Recv() != nil || len(fn.Params) != 1 || fn.Signature.Results().Len() != 1 {
+		return nil, nil, false
+	}
+	if !isStringish(fn.Params[0].Type()) || !isStringish(fn.Signature.Results().At(0).Type()) {
+		return nil, nil, false
+	}
+	var table *ssa.Global
+	var elem ssa.Value
+	folds := 0
+	for _, b := range fn.Blocks {
+		for _, in := range b.Instrs {
+			switch x := in.(type) {
+			case ssa.CallInstruction:
+				if _, isBuiltin := x.Common().Value.(*ssa.Builtin); isBuiltin {
+					continue
+				}
+				cal := x.Common().StaticCallee()
+				if cal == nil || cal.Object() == nil || cal.Object().Pkg() == nil || cal.Object().Pkg().Path() != "strings" || cal.Name() != "EqualFold" {
+					return nil, nil, false
+				}
+				folds++
+				// one operand is the parameter, the other an element of the table
+				var other ssa.Value
+				a0, a1 := unwrap(x.Common().Args[0]), unwrap(x.Common().Args[1])
+				switch {
+				case a0 == ssa.Value(fn.Params[0]):
+					other = a1
+				case a1 == ssa.Value(fn.Params[0]):
+					other = a0
+				default:
+					return nil, nil, false
+				}
+				elem = other
+			case *ssa.UnOp:
+				if g, ok := x.X.(*ssa.Global); ok && x.Op == token.MUL {
+					if table != nil && table != g {
+						return nil, nil, false
+					}
+					table = g
+				}
+			case *ssa.Store, *ssa.MapUpdate, *ssa.Go, *ssa.Defer:
+				return nil, nil, false
+			}
+		}
+	}
+	if folds != 1 || table == nil || elem == nil {
+		return nil, nil, false
+	}
+	// the element is a load of &table[i]
+	ld, ok := elem.(*ssa.UnOp)
+	if !ok || ld.Op != token.MUL {
+		return nil, nil, false
+	}
+	ia, ok := ld.X.(*ssa.IndexAddr)
+	if !ok {
+		return nil, nil, false
+	}
+	if tl, ok := ia.X.(*ssa.UnOp); !ok || tl.X != ssa.Value(table) {
+		return nil, nil, false
+	}
+	var notFound constant.Value
+	for _, rb := range returnBlocks(fn) {
+		r := rb.Instrs[len(rb.Instrs)-1].(*ssa.Return).Results[0]
+		if k, isConst := r.(*ssa.Const); isConst && k.Value != nil {
+			if notFound != nil && !constant.Compare(notFound, token.EQL, k.Value) {
+				return nil, nil, false
+			}
+			notFound = k.Value
+			continue
+		}
+		if unwrap(r) != elem {
+			// a second load of the same element
+			l2, ok := unwrap(r).(*ssa.UnOp)
+			if !ok || l2.Op != token.MUL || l2.X != ld.X {
+				return nil, nil, false
+			}
+		}
+	}
+	if notFound == nil {
+		return nil, nil, false
+	}
+	return table, notFound, true
 }
 
 func zeroAV(t types.Type) AV {
@@ -1428,6 +1522,21 @@ func (ip *Interp) callFn(fr *frame, site *ssa.Call, fn *ssa.Function, args []AV,
 		}
 		return avBool(false), true
 	}
+	// lookup in a constant package-level table (for _, t := range table { if EqualFold(x, t) { return t } }; return
+	// notFound), decided exactly for a constant argument
+	if len(args) == 1 && args[0].K == kConst && args[0].C.Kind() == constant.String {
+		if g, notFound, ok := foldLookup(fn); ok {
+			if tbl, known := ip.globals[g]; known && tbl.K == kSlice && tbl.Consts != nil && ip.w.globalStoreCount(g) <= 1 {
+				want := constant.StringVal(args[0].C)
+				for _, e := range tbl.Consts {
+					if strings.EqualFold(e, want) {
+						return AV{K: kConst, C: constant.MakeString(e), T: resT}, true
+					}
+				}
+				return AV{K: kConst, C: notFound, T: resT}, true
+			}
+		}
+	}
 	res, out, returned := ip.Call(fn, args, bind, *st, site)
 	if !returned {
 		return avBot, false
@@ -1493,6 +1602,9 @@ func (ip *Interp) evalBuiltin(fr *frame, site *ssa.Call, b *ssa.Builtin, args []
 			a := args[0]
 			if a.K == kSlice && a.Nil == nilYes {
 				return avConst(constant.MakeInt64(0))
+			}
+			if a.K == kSlice && a.Len > 0 && b.Name() == "len" {
+				return avConst(constant.MakeInt64(int64(a.Len - 1)))
 			}
 			if a.K == kConst && a.C.Kind() == constant.String && b.Name() == "len" {
 				return avConst(constant.MakeInt64(int64(len(constant.StringVal(a.C)))))
